@@ -41,6 +41,7 @@ type ModItem struct {
 	Elems bool   // x[*]
 	Star  bool   // x.*
 	Deref bool   // *p
+	Fresh bool   // "fresh": anything allocated since the function was entered
 	Src   string
 }
 
@@ -134,6 +135,11 @@ func parseModItems(s string) ([]ModItem, error) {
 			continue
 		}
 		it := ModItem{Src: part}
+		if part == "fresh" {
+			it.Fresh = true
+			items = append(items, it)
+			continue
+		}
 		if strings.HasPrefix(part, "all ") {
 			it.All = true
 			it.Comp = strings.TrimSpace(part[4:])
